@@ -12,8 +12,10 @@ to be a function of the token.
 """
 from __future__ import annotations
 
+import gc
 import hashlib
 import json
+import multiprocessing as mp
 import os
 import random
 import subprocess
@@ -196,8 +198,8 @@ class World:
         for eid, e in sorted(self.envs.items()):
             cache = getattr(e.loader, "cache", None)
             if cache is not None:
-                for k in sorted(cache.keys()):
-                    out.append((eid + ":" + str(k), cache[k]))
+                for k, tobj in sorted(cache.items(), key=lambda kv: str(kv[0])):      # items() does not touch the LRU order
+                    out.append((eid + ":" + str(k), tobj))
         return out
 
 
@@ -206,65 +208,94 @@ class World:
 # ---------------------------------------------------------------------------------------------------------------------------
 
 
-def digest(obj, _seen=None, _depth=0):
+_TYPEINFO: dict = {}
+_SCALARS = None
+
+
+def _typeinfo(t):
+    """(name, kind, slot names) per type, computed once."""
+    global _SCALARS
     import datetime as D
-    seen = _seen if _seen is not None else {}
-    t = type(obj)
-    name = t.__module__ + "." + t.__qualname__
-    if obj is None or t in (bool, int, float, complex, bytes) or name == "decimal.Decimal":
-        return [name, repr(obj)]
-    if isinstance(obj, str):
-        return [name, obj if len(obj) < 200 else hashlib.sha1(obj.encode()).hexdigest()]
-    if isinstance(obj, (D.datetime, D.time)):
-        return [name, obj.replace(tzinfo=None).isoformat(), repr(obj.utcoffset()), repr(obj.tzname()), type(obj.tzinfo).__qualname__, getattr(obj, "fold", 0)]
-    if isinstance(obj, (D.date, D.timedelta)):
-        return [name, repr(obj)]
-    if _depth > 60:
-        return [name, "..."]
-    if id(obj) in seen:
-        return ["ref", seen[id(obj)]]              # sharing is part of the structure
-    if isinstance(obj, (list, tuple)):
-        seen[id(obj)] = len(seen)
-        return [name, [digest(x, seen, _depth + 1) for x in obj]]
-    if isinstance(obj, dict):
-        seen[id(obj)] = len(seen)
-        return [name, [[digest(k, seen, _depth + 1), digest(v, seen, _depth + 1)] for k, v in obj.items()]]
-    if isinstance(obj, (set, frozenset)):
-        seen[id(obj)] = len(seen)
-        return [name, sorted(json.dumps(digest(x, seen, _depth + 1), sort_keys=True) for x in obj)]
-    if isinstance(obj, range):
-        return [name, repr(obj)]
-    if name.startswith("liquid.") and (name.endswith("Environment") or isinstance(obj, _env_types())):
-        return ["env", name]
-    if name in ("re.Pattern",):
-        return [name, obj.pattern, obj.flags]
-    if callable(obj) and not hasattr(obj, "__slots__") and hasattr(obj, "__qualname__"):
-        return ["callable", getattr(obj, "__module__", ""), obj.__qualname__]
-    # any other object: its class and every attribute it has (slots and __dict__)
-    seen[id(obj)] = len(seen)
-    attrs = {}
-    for klass in t.__mro__:
-        for s in getattr(klass, "__slots__", ()) or ():
-            if isinstance(s, str) and hasattr(obj, s):
-                attrs[s] = getattr(obj, s)
-    attrs.update(getattr(obj, "__dict__", {}) or {})
-    if not attrs and not hasattr(obj, "__dict__") and not hasattr(t, "__slots__"):
-        return [name, repr(obj)]
-    return [name, [[k, digest(v, seen, _depth + 1)] for k, v in sorted(attrs.items()) if k not in ("env", "parser", "tag")
-                   or not _is_machinery(v)]]
-
-
-def _env_types():
-    import liquid
-    return (liquid.Environment,)
-
-
-def _is_machinery(v):
-    """Environment / Parser / Tag objects referenced from a node are not part of the parsed template."""
+    import decimal
+    import re
     import liquid
     from liquid.parser import Parser
     from liquid.tag import Tag
-    return isinstance(v, (liquid.Environment, Parser, Tag))
+    if _SCALARS is None:
+        _SCALARS = (bool, int, float, complex, bytes, type(None), decimal.Decimal, range, D.date, D.timedelta)
+    name = t.__module__ + "." + t.__qualname__
+    from liquid.token import Token
+    if issubclass(t, Token):
+        kind = "token"              # an immutable tuple of kind, value, index and the (shared) source text
+    elif issubclass(t, str):
+        kind = "str"
+    elif issubclass(t, (D.datetime, D.time)):
+        kind = "dt"
+    elif issubclass(t, _SCALARS):
+        kind = "scalar"
+    elif issubclass(t, (list, tuple)):
+        kind = "seq"
+    elif issubclass(t, dict):
+        kind = "dict"
+    elif issubclass(t, (set, frozenset)):
+        kind = "set"
+    elif issubclass(t, (liquid.Environment, Parser, Tag)):
+        kind = "machinery"          # referenced from nodes, not part of the parsed template
+    elif issubclass(t, re.Pattern):
+        kind = "re"
+    else:
+        kind = "obj"
+    slots = []
+    for klass in t.__mro__:
+        for sl in getattr(klass, "__slots__", ()) or ():
+            if isinstance(sl, str) and sl not in ("__dict__", "__weakref__"):
+                slots.append(sl)
+    info = (name, kind, tuple(slots))
+    _TYPEINFO[t] = info
+    return info
+
+
+def digest(obj, _seen=None, _depth=0):
+    """Type-aware structural digest: 1 / True / 1.0, list / tuple, str / Markup, time zones and sharing are all told apart."""
+    seen = _seen if _seen is not None else {}
+    t = type(obj)
+    info = _TYPEINFO.get(t) or _typeinfo(t)
+    name, kind, slots = info
+    if kind == "scalar":
+        return [name, repr(obj)]
+    if kind == "str":
+        return [name, obj if len(obj) < 120 else [len(obj), hash(obj)]]       # (compared within one process only)
+    if kind == "dt":
+        return [name, obj.replace(tzinfo=None).isoformat(), repr(obj.utcoffset()), repr(obj.tzname()), type(obj.tzinfo).__qualname__, getattr(obj, "fold", 0)]
+    if kind == "token":
+        return [name, obj[0], obj[1], obj[2]]
+    if kind == "machinery":
+        return ["machinery", name]
+    if kind == "re":
+        return [name, obj.pattern, obj.flags]
+    if _depth > 80:
+        return [name, "..."]
+    i = id(obj)
+    if i in seen:
+        return ["ref", seen[i]]                    # sharing is part of the structure
+    seen[i] = len(seen)
+    d = _depth + 1
+    if kind == "seq":
+        return [name, [digest(x, seen, d) for x in obj]]
+    if kind == "dict":
+        return [name, [[digest(k, seen, d), digest(v, seen, d)] for k, v in obj.items()]]
+    if kind == "set":
+        return [name, sorted(json.dumps(digest(x, seen, d), sort_keys=True, default=repr) for x in obj)]
+    if not slots and callable(obj) and hasattr(obj, "__qualname__"):
+        return ["callable", getattr(obj, "__module__", ""), obj.__qualname__]
+    # any other object: its class and every attribute it has (slots and __dict__)
+    attrs = [(sl, getattr(obj, sl)) for sl in slots if hasattr(obj, sl)]
+    dd = getattr(obj, "__dict__", None)
+    if dd:
+        attrs += sorted(dd.items())
+    if not attrs and dd is None and not slots:
+        return [name, repr(obj)]
+    return [name, [[k, digest(v, seen, d)] for k, v in attrs]]
 
 
 def h(d):
@@ -303,12 +334,27 @@ def render_outcome(t, data, how, positional):
             return {"err": type(e).__name__}
 
 
-def run_history(pool, jobs, hows):
-    """Replay jobs (indexes into the pool, 1-based) in this process. Returns one record per render + final digests."""
+def run_history(pool, jobs, hows, fine=False):
+    """Replay jobs (indexes into the pool, 1-based) in this process, one World for the history.
+    Returns one record per render and what changed in any object the caller (or a caching loader) holds."""
     w = World(pool)
     recs = []
-    first_data = {}
-    first_tmpl = {}
+    known = {}                 # object key -> (object, digest, str) as last seen; compared after every render
+    first = {}
+
+    def look(key, obj, is_template, rec, what):
+        dg = template_digest(obj) if is_template else (digest(obj), None)
+        if key not in known:
+            known[key] = dg
+            first[key] = dg
+            return
+        old = known[key]
+        if dg[0] != old[0]:
+            rec.setdefault(what, {})[key] = first_difference(old[0], dg[0]) or "digest differs"
+        if is_template and dg[1] != old[1]:
+            rec.setdefault("str_changed", {})[key] = [old[1][:300], dg[1][:300]]
+        known[key] = dg
+
     for pos, (ji, how) in enumerate(zip(jobs, hows)):
         job = pool["jobs"][ji - 1]
         rec = {}
@@ -318,31 +364,26 @@ def run_history(pool, jobs, hows):
             recs.append({"outcome": {"err": type(e).__name__, "phase": "parse"}})
             continue
         d = w.data_of(job["d"])
-        db = digest(d)
-        first_data.setdefault(job["d"], db)
-        tb, sb = template_digest(t)
-        first_tmpl.setdefault((job["e"], job["t"]), (tb, sb, t))
+        tkey = "template:%s/%s" % (job["e"], job["t"])
+        if not pool["env"][job["e"]]["keep"]:
+            known.pop(tkey, None)                   # a new object every time
+        look("data:" + job["d"], d, False, rec, "data_changed")
+        look(tkey, t, True, rec, "template_changed")
         rec["outcome"] = render_outcome(t, d, how, positional=(pos % 2 == 1))
-        da = digest(d)
-        if da != db:
-            rec["data_changed"] = first_difference(db, da) or "changed"
-        ta, sa = template_digest(t)
-        if ta != tb:
-            rec["template_changed"] = first_difference(tb, ta) or "node tree digest differs"
-        if sa != sb:
-            rec["str_changed"] = [sb[:300], sa[:300]]
+        look("data:" + job["d"], d, False, rec, "data_changed")
+        look(tkey, t, True, rec, "template_changed")
+        if pos == len(jobs) - 1 or fine:
+            # everything else that is alive: all data objects, all kept templates, every partial in a caching loader
+            for did, dobj in w.data.items():
+                look("data:" + did, dobj, False, rec, "data_changed")
+            for (eid, tid), tobj in w.templates.items():
+                look("template:%s/%s" % (eid, tid), tobj, True, rec, "template_changed")
+            for name, pt in w.cached_partials():
+                look("partial:" + name, pt, True, rec, "template_changed")
         recs.append(rec)
-    # at the end: every object the caller still holds, and every partial a caching loader holds
-    final = {}
-    for did, d0 in first_data.items():
-        dn = digest(w.data[did])
-        if dn != d0:
-            final["data:" + did] = first_difference(d0, dn) or "changed"
-    for key, (t0, s0, t) in first_tmpl.items():
-        tn, sn = template_digest(t)
-        if tn != t0 or sn != s0:
-            final["template:%s/%s" % key] = "changed"
-    return recs, final
+    if not fine and len(jobs) > 1 and any(r.get("data_changed") or r.get("template_changed") or r.get("str_changed") for r in recs):
+        return run_history(pool, jobs, hows, fine=True)      # again, looking at every object after every render
+    return recs, {}
 
 
 def in_child(fn, *args):
@@ -379,38 +420,79 @@ def in_child(fn, *args):
 _POOLS: dict = {}
 
 
-def replay_one(item):
+def run_isolated(item):
+    """Isolated: the worker was forked for this one history from a process that has rendered nothing (the state Process.tla starts from)."""
     fam, jobs, hows = item
-    return in_child(run_history, _POOLS[fam], jobs, hows)
+    return run_history(_POOLS[fam], jobs, hows)
+
+
+def replay_batch(items):
+    """A worker process replays its histories one after the other WITHOUT returning to a clean state: the concatenation is one
+    long history, so every render still has to equal the same render alone. (Cheaper than a fork per history, and harsher.)"""
+    return [run_history(_POOLS[fam], jobs, hows) for fam, jobs, hows in items]
 
 
 # ---- the reference: every job alone, in an interpreter started for the purpose ---------------------------------------------
+# (a fork costs about a second of page faults in this sandbox, so the forks are spread over 16 processes and used only where the
+#  state a render starts from has to be exactly "nothing rendered yet")
+def _alone(task):
+    fam, i, how = task
+    recs, _ = run_history(_POOLS[fam], [i], [how])
+    return recs[0]
+
+
+def _in_order(task):
+    fam, order, how = task
+    return [run_history(_POOLS[fam], [i], [how])[0][0] for i in order]
+
+
 def _ref_main():
-    """python -m vf.props.c17 --ref  : stdin {family: pool}; stdout {family: [[sync outcome, async outcome, partial digests] per job]}"""
+    """python -m vf.props.c17 --ref : stdin {"alone": {family: pool}, "ordered": {family: pool}}.
+    alone: every job rendered as the first and only render of a process forked from this (so far idle) interpreter.
+    ordered: all jobs of the family one after the other in one such process, forwards and, in another, backwards."""
     fresh_repo_imports()
-    pools = json.load(sys.stdin)
+    req = json.load(sys.stdin)
+    _POOLS.update(req["alone"])
+    _POOLS.update(req["ordered"])
     out = {}
-    for fam, pool in pools.items():
-        res = []
-        for i in range(1, len(pool["jobs"]) + 1):
-            row = []
+    ctx = mp.get_context("fork")
+    gc.collect()
+    gc.freeze()                                   # children do not copy the heap when their collector runs
+    with ctx.Pool(min(16, os.cpu_count() or 4), maxtasksperchild=1) as pl:       # one new process per task
+        tasks = [(fam, i, how) for fam, pool in req["alone"].items() for i in range(1, len(pool["jobs"]) + 1) for how in ("sync", "async")]
+        r_alone = pl.map_async(_alone, tasks, chunksize=1)
+        otasks = []
+        for fam, pool in req["ordered"].items():
+            n = len(pool["jobs"])
             for how in ("sync", "async"):
-                recs, final = in_child(run_history, pool, [i], [how])
-                row.append({"rec": recs[0], "final": final})
-            res.append(row)
-        out[fam] = res
+                otasks.append((fam, list(range(1, n + 1)), how))
+                otasks.append((fam, list(range(n, 0, -1)), how))
+        r_ord = pl.map_async(_in_order, otasks, chunksize=1)
+        for (fam, i, how), rec in zip(tasks, r_alone.get()):
+            out.setdefault(fam, {}).setdefault(str(i), {})[how] = {"rec": rec}
+        for (fam, order, how), recs in zip(otasks, r_ord.get()):
+            for i, rec in zip(order, recs):
+                slot = out.setdefault(fam, {}).setdefault(str(i), {})
+                if how in slot:
+                    if not same_outcome(slot[how]["rec"]["outcome"], rec["outcome"]):
+                        slot[how]["disagrees"] = rec["outcome"]
+                    for k in ("data_changed", "template_changed", "str_changed"):
+                        if rec.get(k):
+                            slot[how]["rec"][k] = rec[k]
+                else:
+                    slot[how] = {"rec": rec}
     json.dump(out, sys.stdout)
 
 
-def reference(pools):
+def reference(alone, ordered):
     e = dict(os.environ)
     e["PYTHONDONTWRITEBYTECODE"] = "1"
-    e.setdefault("PYTHONHASHSEED", "0")
-    p = subprocess.run([sys.executable, "-m", "vf.props.c17", "--ref"], cwd=ROOT, env=e, input=json.dumps(pools),
-                       capture_output=True, text=True, timeout=900)
+    p = subprocess.run([sys.executable, "-m", "vf.props.c17", "--ref"], cwd=ROOT, env=e, input=json.dumps({"alone": alone, "ordered": ordered}),
+                       capture_output=True, text=True, timeout=1500)
     if p.returncode != 0 or not p.stdout.startswith("{"):
         raise MachineryError("reference interpreter failed:\n" + (p.stderr or p.stdout)[-2000:])
-    return json.loads(p.stdout)
+    raw = json.loads(p.stdout)
+    return {fam: [[d[str(i)]["sync"], d[str(i)]["async"]] for i in range(1, len(d) + 1)] for fam, d in raw.items()}
 
 
 # ---------------------------------------------------------------------------------------------------------------------------
@@ -504,8 +586,10 @@ def check_pure(ck, fam, pool, ref, atoms):
                 elif want != txt:
                     ck.fail("fresh render differs from F(job): operation %d (%s) printed %r, specified %r" % (k + 1, job["ops"][k]["op"] if k < len(job["ops"]) else "partial", txt, want),
                             detail, sig="pure:%s:%s:%s" % (fam, job["t"], tok[0]))
-            if r["rec"].get("data_changed") or r["rec"].get("template_changed") or r["rec"].get("str_changed") or r["final"]:
-                pass                                  # reported with the histories (every job is also a history of its own prefix)
+            for k, what in (("data_changed", "DataUnchanged"), ("template_changed", "TemplateUnchanged"), ("str_changed", "TemplateUnchanged")):
+                if r["rec"].get(k):
+                    ck.fail(what + ": a render alone in a fresh process modified " + ("the data passed to it" if k == "data_changed" else "the parsed template"),
+                            dict(detail, difference=r["rec"][k]), sig="%s:%s:%s" % (k.split("_")[0], fam, job["t"]))
 
 
 def distinct_atoms(ck, atoms):
@@ -548,7 +632,10 @@ def run(tier: str) -> int:
     # ---- model checking -----------------------------------------------------------------------------------------------
     runs = [(MODULE, cfg, dict(workers=1, timeout=3000)) for _, cfg in EXHAUSTIVE[tier]]
     devs = [(MODULE, f"cfg/Process_dev_{d}.cfg", dict(workers=1, timeout=600, expect_violation=True)) for d, _ in DEVIATIONS]
+    import time
+    t0 = time.time()
     results = model_runs(runs + devs)
+    ck.cov["wall_model_s"] = round(time.time() - t0, 1)
     histories = []
     pools = {}
     for (name, cfg), r in zip(EXHAUSTIVE[tier], results):
@@ -575,7 +662,25 @@ def run(tier: str) -> int:
     _POOLS.update(pools)
 
     # ---- the reference: every job alone, in a separately started interpreter ------------------------------------------
-    ref = reference(pools)
+    t0 = time.time()
+    # every job of the full pool alone (the core pool is a sub-pool: same jobs, looked up by name); the sweep jobs in two orders
+    big = "full" if "full" in pools else "core"
+    ref = reference({big: pools[big]}, {f: p for f, p in pools.items() if f == "sweep"})
+    byname = {job_name(pools[big], i + 1): row for i, row in enumerate(ref[big])}
+    for f, p in pools.items():
+        if f not in ref:
+            try:
+                ref[f] = [byname[job_name(p, i + 1)] for i in range(len(p["jobs"]))]
+            except KeyError as ex:
+                raise MachineryError("job of pool %s is not in pool %s: %s" % (f, big, ex))
+    for fam, rows in ref.items():
+        for i, row in enumerate(rows):
+            for mode, r in zip(("sync", "async"), row):
+                if "disagrees" in r:
+                    ck.fail("HistoryIndependent: the same render gives two results in two orders of the sweep",
+                            {"job": job_name(pools[fam], i + 1), "source": source_of(pools[fam]["jobs"][i]["ops"]), "mode": mode,
+                             "forwards": r["rec"]["outcome"], "backwards": r["disagrees"]}, sig="history:%s:%s" % (fam, job_name(pools[fam], i + 1)))
+    ck.cov["wall_reference_s"] = round(time.time() - t0, 1)
     atoms: dict = {}
     for fam, pool in pools.items():
         check_pure(ck, fam, pool, ref[fam], atoms)
@@ -593,24 +698,68 @@ def run(tier: str) -> int:
         pool = pools[fam]
         if hrec["res"] != [pool["jobs"][j - 1]["pure"] for j in hrec["jobs"]]:
             raise MachineryError("emitted history does not carry F(job) although HistoryIndependent held")
-        variants = [0, 1] if len(hrec["jobs"]) == 1 else [0, 1, 2 + (len(items) % 2)]
-        if tier == "thorough" and len(hrec["jobs"]) >= 4:
-            variants = [rnd.choice([0, 1, 2, 3])]
+        n = len(hrec["jobs"])
+        if n <= 2 and tier == "quick" or n <= 1:
+            variants = [0, 1]                     # all sync, all async
+        elif n == 2:
+            variants = [0, 1, 2 + len(seen) % 2]  # + alternating
+        else:
+            variants = [len(seen) % 4]            # one of: sync, async, the two alternations
         for v in variants:
             items.append((fam, hrec["jobs"], hows_for(hrec["jobs"], v), hrec["conf"]))
-    res = par.pmap(replay_one, [(f, j, hw) for f, j, hw, _ in items], chunk=16)
-    for (fam, jobs, hows, conf), (recs, final) in zip(items, res):
+    # histories in which the model sees two renders meet in process-wide state (the date memo) run isolated, each in a child
+    # forked from a process that has rendered nothing - exactly the state Process.tla starts from; the others are replayed
+    # back to back by 16 worker processes (their concatenation is one long history, which must not matter either)
+    def process_wide(conf):
+        return any("datekey" in c for cs in conf for c in cs)
+    iso = [i for i, it in enumerate(items) if process_wide(it[3]) and len(it[1]) <= 2 and set(it[2]) == ({"sync"} if tier == "quick" else {"async"})]
+    if len(iso) > (160 if tier == "quick" else 1200):
+        iso = sorted(rnd.sample(iso, 160 if tier == "quick" else 1200))
+    isoset = set(iso)
+    rest = [i for i in range(len(items)) if i not in isoset]
+    rnd.shuffle(rest)
+    per = max(8, min(80, len(rest) // 64 + 1))
+    chunks = [rest[k:k + per] for k in range(0, len(rest), per)]
+    res = [None] * len(items)
+    t0 = time.time()
+    gc.collect()
+    gc.freeze()                                   # children do not copy the heap when their collector runs
+    ctx = mp.get_context("fork")
+    nproc = min(16, os.cpu_count() or 4)
+    # both pools are forked before this process has rendered anything (it never does)
+    with ctx.Pool(nproc, initializer=par._init, maxtasksperchild=1) as p1, ctx.Pool(nproc, initializer=par._init) as p2:
+        r_iso = p1.map_async(run_isolated, [items[i][:3] for i in iso], chunksize=1)
+        r_bat = p2.map_async(replay_batch, [[items[i][:3] for i in ch] for ch in chunks], chunksize=1)
+        for i, r in zip(iso, r_iso.get()):
+            res[i] = (r, "isolated")
+        for ch, rr in zip(chunks, r_bat.get()):
+            for i, r in zip(ch, rr):
+                res[i] = (r, "batched")
+    ck.cov["wall_replay_s"] = round(time.time() - t0, 1)
+    ck.cov["replays_isolated"] = len(iso)
+    ck.cov["replays_batched"] = len(rest)
+    again = 0
+    for (fam, jobs, hows, conf), ((recs, _), style) in zip(items, res):
         pool = pools[fam]
         touched = any(c for cs in conf for c in cs)
         ck.case((fam, tuple(jobs), tuple(hows)), nontrivial=touched)
         ck.validated()
         names = [job_name(pool, j) for j in jobs]
-        base = {"family": fam, "history": names, "modes": hows,
+        base = {"family": fam, "history": names, "modes": hows, "replayed": style,
                 "sources": [source_of(pool["jobs"][j - 1]["ops"]) for j in jobs],
                 "data": [pool["data"][pool["jobs"][j - 1]["d"]] for j in jobs],
                 "partials": {p: source_of(o) for p, o in pool["partials"].items()},
                 "concrete_values": "see vf/props/c17.py value()/make_data()"}
-        for pos, (ji, how, rec) in enumerate(zip(jobs, hows, recs)):
+        bad = [pos for pos, (ji, how, rec) in enumerate(zip(jobs, hows, recs))
+               if not same_outcome(rec["outcome"], ref[fam][ji - 1][0 if how == "sync" else 1]["rec"]["outcome"])
+               or rec.get("data_changed") or rec.get("template_changed") or rec.get("str_changed")]
+        if bad and style == "batched" and again < 40:
+            # attribute: does the history alone reproduce it, or did an earlier history of the same worker leave the state behind?
+            again += 1
+            recs2, _ = in_child(run_history, pool, jobs, hows)
+            base["alone_this_history_gives"] = [r.get("outcome") for r in recs2]
+        for pos in bad:
+            ji, how, rec = jobs[pos], hows[pos], recs[pos]
             want = ref[fam][ji - 1][0 if how == "sync" else 1]["rec"]["outcome"]
             got = rec["outcome"]
             tch = sorted({c for cs in conf[pos] for c in cs}) if pos < len(conf) else []
@@ -618,17 +767,14 @@ def run(tier: str) -> int:
                 culprit = [names[q] for q in range(pos) if conf[pos][q]] or names[:pos]
                 ck.fail("HistoryIndependent: render %d (%s, %s) gives a different result than the same render alone in a fresh process" % (pos + 1, names[pos], how),
                         dict(base, position=pos + 1, observed=got, alone=want, specified=pool["jobs"][ji - 1]["pure"], shares_state_with=culprit, touch=tch),
-                        sig="history:%s:%s:after:%s" % (fam, names[pos], ",".join(tch) or "-"))
+                        sig="history:%s:%s" % (fam, names[pos]))
             if rec.get("data_changed"):
-                ck.fail("DataUnchanged: render %d (%s, %s) modified the data passed to it" % (pos + 1, names[pos], how),
+                ck.fail("DataUnchanged: render %d (%s, %s) modified data the caller holds" % (pos + 1, names[pos], how),
                         dict(base, position=pos + 1, difference=rec["data_changed"]), sig="data:%s:%s" % (fam, pool["jobs"][ji - 1]["t"]))
             if rec.get("template_changed") or rec.get("str_changed"):
-                ck.fail("TemplateUnchanged: render %d (%s, %s) modified the parsed template" % (pos + 1, names[pos], how),
+                ck.fail("TemplateUnchanged: render %d (%s, %s) modified a parsed template" % (pos + 1, names[pos], how),
                         dict(base, position=pos + 1, difference=rec.get("template_changed"), str_before_after=rec.get("str_changed")),
                         sig="template:%s:%s" % (fam, pool["jobs"][ji - 1]["t"]))
-        for what, diff in final.items():
-            ck.fail("an object the caller holds was modified during the history: " + what, dict(base, difference=diff),
-                    sig="final:%s:%s" % (fam, what.split(":")[0]))
     # ---- samples, coverage -----------------------------------------------------------------------------------------------
     ck.cov["histories"] = {"distinct": len(seen), "replays": len(items),
                            "by_length": {str(n): sum(1 for k in seen if len(k[1]) == n) for n in sorted({len(k[1]) for k in seen})}}
